@@ -150,7 +150,9 @@ MOVE = [M("FreeListSmall", "MCSmall_regress_move.cfg", "witness"), M("FreeListSm
 
 COMPOSE = [M("MCCompose", "MCCompose_t%d_%s.cfg" % (t, a), tier="quick" if (t, a) in ((1, "ArrAll"), (2, "ArrAll"), (3, "ArrNone2")) else "thorough")
            for t in (1, 2, 3) for a in ("ArrAll", "ArrNone1", "ArrNone2")] + \
-          [M("MCCompose", "MCCompose_regress_f6.cfg", "witness"), M("MCCompose", "MCCompose_wit.cfg", "witness")]
+          [M("MCCompose", "MCCompose_regress_f6.cfg", "witness"), M("MCCompose", "MCCompose_wit.cfg", "witness")] + \
+          [M("MCCompose", "MCCompose_%s.cfg" % c) for c in ("seg2", "seg3", "segfb", "segn")] + \
+          [M("MCCompose", "MCCompose_%s.cfg" % c, "witness") for c in ("seg_regress_bysize", "seg_wit_third", "seg_wit_both")]
 LEAK = [M("LeakCounter", "MCLeak.cfg"), M("LeakCounter", "MCLeak_regress_rmw.cfg", "witness"),
         M("LeakCounter", "MCLeak_regress_move.cfg", "witness"), M("LeakCounter", "MCLeak_wit.cfg", "witness")]
 
